@@ -40,6 +40,7 @@ type simNode struct {
 	maxTermSeen uint64
 	ackedIndex  uint64 // highest log index acknowledged as stored by the incarnation that crashed last
 	ackedTerm   uint64
+	lastCrashAtIO bool
 }
 
 type nodeInc struct {
@@ -122,6 +123,7 @@ type simRun struct {
 	c06Seq   int
 	digests map[uint64]struct{}
 	lastDigest uint64
+	histStats [3]int
 	dbgOn bool
 	dbgF  func(string)
 
@@ -263,6 +265,12 @@ func newSimRun(seed uint64, prof profile, tape *rt.Tape, quiesce func()) *simRun
 		}
 	}
 	run.led.init(run)
+	run.net.OnClose = func(c *simnet.Conn) {
+		if c.NC != nil && c.Peer != nil && c.Peer.NC != nil {
+			run.led.x.lastClose[[2]int{c.NC.ID, c.Peer.NC.ID}] = run.sim.Now
+			run.led.x.lastClose[[2]int{c.Peer.NC.ID, c.NC.ID}] = run.sim.Now
+		}
+	}
 	return run
 }
 
@@ -326,6 +334,7 @@ func (run *simRun) setup() {
 	for i := 0; i < run.cfg.Clients; i++ {
 		run.startClient(i)
 	}
+	run.spawnAdmin("monitor", func(a *admin) { a.monitor() })
 	run.sim.After(int64(run.cfg.TickEvery), "tick", run.tick)
 	run.sim.After(int64(run.cfg.ChaosLen), "heal", run.heal)
 }
@@ -409,6 +418,7 @@ func (run *simRun) crash(ni *nodeInc, why string) {
 	}
 	run.fault("crash:" + why)
 	node.ackedIndex, node.ackedTerm = ni.acked, ni.ackedTerm
+	node.lastCrashAtIO = why == "io"
 	ni.dead = true
 	ni.nc.Dead = true
 	ni.nc.Stalled = false
@@ -738,6 +748,7 @@ func (run *simRun) beginShutdown() {
 	}
 	run.phase = "shutdown"
 	run.shutdownAt = run.sim.Now
+	run.sim.After(10*int64(run.cfg.HB), "shutdown-watch", run.shutdownWatch)
 	for _, n := range run.nodes {
 		if n.inc != nil && !n.inc.exited {
 			ni := n.inc
